@@ -5,6 +5,7 @@ PROP = {
         "needs_binary": True,
         "obligations": [
             "broken_pipe_never_returned", "wrapper_outermost", "cli_epipe_outcome", "cli_other_write_error",
+            "exit0_nothing_missing",
         ],
         "trusted_base": CLI_BASE + [
             "NOT modelled (this is why the claim is partial): what the kernel does with signal(SIGPIPE, SIG_DFL) + raise(SIGPIPE) -- that the process then dies by signal 13 without writing anything more. It is observed on real processes on every run (wait status via ExitStatusExt::signal), not proved.",
